@@ -42,7 +42,7 @@ ASSUMPTIONS = [
 NAME = "main"
 CORR_REQUIRE = "From Coq Require Import Qcanon.\nFrom DV Require Import Stack.Model Orient.Model Conv.Geom Conv.Header Conv.CorrGeom."
 CORR_CASE_TYPE = "CorrGeom.case"
-CORR_CHECK = "CorrGeom.check"
+CORR_CHECK = "CorrGeom.check_geom"
 CORR_SHOW = "CorrGeom.show"
 SHARD = 40
 IMPL_TIMEOUT = 30
